@@ -19,6 +19,8 @@ def cases(tier, rnd):
     hand = [dict(n=4, edges=[[0, 1, 0], [1, 2, 0], [2, 3, 0]], names=["a"]), dict(n=3, edges=[[0, 1, 0], [1, 2, 0], [0, 2, 0]], names=["a"]),
             dict(n=4, edges=[[0, 1, 1], [1, 2, 1], [2, 3, 1]], names=["red", "green", "blue"]), dict(n=4, edges=[[0, 1, 0], [1, 2, 2], [2, 3, 2], [0, 3, 0]], names=["r", "g", "b"]),
             dict(n=5, edges=[[0, 1, 0], [0, 2, 0], [0, 3, 0], [0, 4, 1]], names=["x", "y"])]
+    hand += [dict(n=5, edges=[[0, 1, 0], [1, 2, 1], [2, 3, 1], [3, 4, 0], [0, 4, 1]], names=["2-clique", "2-clique-red"]), dict(n=4, edges=[[0, 1, 0], [1, 2, 1], [2, 3, 2], [0, 3, 1]], names=["a", "ab", "b"]),
+             dict(n=4, edges=[[0, 1, 1], [1, 2, 0], [2, 3, 1]], names=["tri-x", "tri"])]
     for h in hand:
         for reps in (1, 2, 3): yield dict(h, reps=reps)
     nmax, emax, tmax = (6, 9, 3) if tier == "quick" else (9, 16, 4)
@@ -27,7 +29,8 @@ def cases(tier, rnd):
         pairs = [(u, v) for u in range(n) for v in range(u + 1, n)]; rnd.shuffle(pairs)
         used = rnd.sample(range(T), rnd.randint(1, T))
         es = [[u, v, rnd.choice(used)] if rnd.random() < .5 else [v, u, rnd.choice(used)] for u, v in pairs[:rnd.randint(1, min(emax, len(pairs)))]]
-        yield dict(n=n, edges=es, names=[f"t{k}" for k in range(T)], reps=rnd.randint(1, 3))
+        names = [f"t{k}" for k in range(T)] if rnd.random() < 0.6 else ["c" + "x" * k for k in range(T)]        # labels may be substrings of one another
+        yield dict(n=n, edges=es, names=names, reps=rnd.randint(1, 3))
 def nontrivial(c): return len(c["edges"]) >= 2
 
 def build(c):
